@@ -14,7 +14,8 @@
 //      trailing zero words trimmed, "-" if none)
 //   M <t> <hw> <a> <m>           DoubleSize<uint<t>, hw>::Multiply     output lo,hi
 //   D <t> <hw> <hi> <lo> <d>     DoubleSize<uint<t>, hw>::Divide       output rem,quo
-//        (hw = 64 with t = 32: the 128/64 algorithm re-instantiated on 16-bit halves)
+//        (hw = 64 with t = 32: the 128/64 algorithm re-instantiated on 16-bit halves; t = 16 / t = 8: on 8- / 4-bit
+//         halves through the promotion-free word type Narrow<>)
 #include "common.hpp"
 #include "BigInt.hpp"
 
@@ -155,6 +156,55 @@ static std::string run_seq(const std::vector<std::string> &ops) {
     return ops.empty() ? "-" : out;
 }
 
+
+// A word type of exactly 8 / 16 bits WITHOUT integer promotion: every operator returns the wrapper again,
+// truncated to its width.  DoubleSize<Number_T, 64U> derives its half width from sizeof(Number_T), so
+// DoubleSize<Narrow<SizeT8>, 64U> is the 128/64 split algorithm (and the 64x64->128 multiply) running on
+// 4-bit halves -- the plain unsigned char / unsigned short instantiations are not usable because
+// ~(Number_T{0}) promotes to int and yields a full-width mask_.
+template <typename S>
+struct Narrow {
+    S v;
+    constexpr Narrow() noexcept : v{0} {}
+    template <typename I>
+    constexpr Narrow(I x) noexcept : v{S(x)} {}
+    constexpr explicit operator u64() const noexcept { return u64(v); }
+    friend constexpr Narrow operator+(Narrow a, Narrow b) noexcept { return Narrow(S(a.v + b.v)); }
+    friend constexpr Narrow operator-(Narrow a, Narrow b) noexcept { return Narrow(S(a.v - b.v)); }
+    friend constexpr Narrow operator*(Narrow a, Narrow b) noexcept { return Narrow(S(unsigned(a.v) * unsigned(b.v))); }
+    friend constexpr Narrow operator/(Narrow a, Narrow b) noexcept { return Narrow(S(a.v / b.v)); }
+    friend constexpr Narrow operator%(Narrow a, Narrow b) noexcept { return Narrow(S(a.v % b.v)); }
+    friend constexpr Narrow operator&(Narrow a, Narrow b) noexcept { return Narrow(S(a.v & b.v)); }
+    friend constexpr Narrow operator|(Narrow a, Narrow b) noexcept { return Narrow(S(a.v | b.v)); }
+    friend constexpr Narrow operator<<(Narrow a, SizeT32 n) noexcept { return Narrow(S(unsigned(a.v) << n)); }
+    friend constexpr Narrow operator>>(Narrow a, SizeT32 n) noexcept { return Narrow(S(a.v >> n)); }
+    constexpr Narrow operator~() const noexcept { return Narrow(S(~unsigned(v))); }
+    constexpr Narrow &operator+=(Narrow b) noexcept { return (*this = *this + b); }
+    constexpr Narrow &operator-=(Narrow b) noexcept { return (*this = *this - b); }
+    constexpr Narrow &operator*=(Narrow b) noexcept { return (*this = *this * b); }
+    constexpr Narrow &operator/=(Narrow b) noexcept { return (*this = *this / b); }
+    constexpr Narrow &operator%=(Narrow b) noexcept { return (*this = *this % b); }
+    constexpr Narrow &operator&=(Narrow b) noexcept { return (*this = *this & b); }
+    constexpr Narrow &operator|=(Narrow b) noexcept { return (*this = *this | b); }
+    constexpr Narrow &operator<<=(SizeT32 n) noexcept { return (*this = *this << n); }
+    constexpr Narrow &operator>>=(SizeT32 n) noexcept { return (*this = *this >> n); }
+    constexpr Narrow &operator++() noexcept { return (*this = *this + Narrow(1)); }
+    constexpr Narrow &operator--() noexcept { return (*this = *this - Narrow(1)); }
+    friend constexpr bool operator<(Narrow a, Narrow b) noexcept { return a.v < b.v; }
+    friend constexpr bool operator>(Narrow a, Narrow b) noexcept { return a.v > b.v; }
+    friend constexpr bool operator<=(Narrow a, Narrow b) noexcept { return a.v <= b.v; }
+    friend constexpr bool operator>=(Narrow a, Narrow b) noexcept { return a.v >= b.v; }
+    friend constexpr bool operator==(Narrow a, Narrow b) noexcept { return a.v == b.v; }
+    friend constexpr bool operator!=(Narrow a, Narrow b) noexcept { return a.v != b.v; }
+};
+static_assert(sizeof(Narrow<SizeT8>) == 1 && sizeof(Narrow<SizeT16>) == 2, "Narrow must have the size of its word");
+
+static SizeT32 last_bit(u64 d) {
+    SizeT32 r = 0;
+    while (d >>= 1U) ++r;
+    return r;
+}
+
 template <typename T, SizeT32 HW>
 static std::string run_mul(u64 a, u64 m) {
     T lo = T(a);
@@ -165,7 +215,7 @@ static std::string run_mul(u64 a, u64 m) {
 template <typename T, SizeT32 HW>
 static std::string run_div(u64 hi, u64 lo, u64 d) {
     T             h = T(hi), l = T(lo);
-    const SizeT32 shift = (HW == 64U) ? ((sizeof(T) * 8U - 1U) - Platform::FindLastBit(T(d))) : 0U;
+    const SizeT32 shift = (HW == 64U) ? ((sizeof(T) * 8U - 1U) - last_bit(d)) : 0U;
     DoubleSize<T, HW>::Divide(h, l, T(d), shift);
     return std::to_string(u64(h)) + "," + std::to_string(u64(l));
 }
@@ -195,6 +245,8 @@ int main() {
             if (t == 32 && hw == 32) return run_mul<SizeT32, 32U>(a, m);
             if (t == 64 && hw == 64) return run_mul<SizeT64, 64U>(a, m);
             if (t == 32 && hw == 64) return run_mul<SizeT32, 64U>(a, m);
+            if (t == 16 && hw == 64) return run_mul<Narrow<SizeT16>, 64U>(a, m);
+            if (t == 8 && hw == 64) return run_mul<Narrow<SizeT8>, 64U>(a, m);
             return "BADCASE";
         }
         if (tk[0] == "D" && tk.size() >= 6) {
@@ -206,6 +258,8 @@ int main() {
             if (t == 32 && hw == 32) return run_div<SizeT32, 32U>(hi, lo, d);
             if (t == 64 && hw == 64) return run_div<SizeT64, 64U>(hi, lo, d);
             if (t == 32 && hw == 64) return run_div<SizeT32, 64U>(hi, lo, d);
+            if (t == 16 && hw == 64) return run_div<Narrow<SizeT16>, 64U>(hi, lo, d);
+            if (t == 8 && hw == 64) return run_div<Narrow<SizeT8>, 64U>(hi, lo, d);
             return "BADCASE";
         }
         return "BADCASE";
